@@ -21,4 +21,6 @@ def bounded(ctx):
 
 # T1 (PyVC): parseString (bytes and text input) and parseStyle put the library-wide error mode back on EVERY exit - normal return and
 # every exception class a decoder, fetcher or raising parser can throw - proved on all paths of the real functions.
-T1 = [('contracts.parse', None)]
+T1 = [('contracts.parse', None), ('contracts.script_csscombine', None)]
+# (csscombine: the process-wide serializer is the caller's again on every exit, and the caller's preference object is never written - 657 paths over
+#  every call that may raise)
